@@ -2,6 +2,7 @@ package updog
 
 import (
 	"encoding/binary"
+	"errors"
 	"fmt"
 	"sort"
 	"strings"
@@ -32,6 +33,10 @@ func (idx *Index) Execute(q *Query) (*Result, error) {
 		}(time.Now())
 	}
 
+	if err := validateExpr(q.Expr); err != nil {
+		return nil, err
+	}
+
 	idx.mtx.RLock()
 	defer idx.mtx.RUnlock()
 
@@ -49,6 +54,47 @@ func (idx *Index) Execute(q *Query) (*Result, error) {
 		Count:  result.GetCardinality(),
 		Groups: q.groupBy(groupByFields, result, idx),
 	}, nil
+}
+
+// validateExpr rejects incomplete expression trees (a missing expression anywhere in
+// the tree) with an error instead of letting the evaluation dereference nil.
+func validateExpr(e Expression) error {
+	switch v := e.(type) {
+	case *ExprEqual:
+		if v == nil {
+			return errors.New("incomplete query: missing comparison")
+		}
+	case *ExprNot:
+		if v == nil {
+			return errors.New("incomplete query: missing NOT expression")
+		}
+
+		return validateExpr(v.Expr)
+	case *ExprAnd:
+		if v == nil {
+			return errors.New("incomplete query: missing AND expression")
+		}
+
+		for _, ee := range v.Exprs {
+			if err := validateExpr(ee); err != nil {
+				return err
+			}
+		}
+	case *ExprOr:
+		if v == nil {
+			return errors.New("incomplete query: missing OR expression")
+		}
+
+		for _, ee := range v.Exprs {
+			if err := validateExpr(ee); err != nil {
+				return err
+			}
+		}
+	case nil:
+		return errors.New("incomplete query: missing expression")
+	}
+
+	return nil
 }
 
 // Result contains the query result.
